@@ -1,6 +1,6 @@
 (* C17 property theorems: statements only, each closed by `exact`, with Print Assumptions. *)
-From Coq Require Import ZArith QArith List Bool PrimFloat.
-From QE Require Import Base.Num C17.Model C17.Proofs C17.Findings.
+From Coq Require Import ZArith QArith Qabs List Bool PrimFloat.
+From QE Require Import Base.Num C17.Model C17.Proofs C17.Proofs2 C17.Proofs3 C17.Proofs4 C17.Findings.
 Import ListNotations.
 
 (* converged = true iff the stopping criterion fired within maxiter passes; otherwise converged = false is
@@ -25,6 +25,81 @@ Theorem C17_secant_flag : forall (T : Type) (NX : NumX T) (f : T -> T) (tol c4 x
                 (fires (secant_event tol) (secant_next f) (Z.to_nat maxiter) (secant_start f c4 x0)).
 Proof. exact (@secant_flag). Qed.
 Print Assumptions C17_secant_flag.
+
+Example ex_newton_flag :   (* f(x) = x^2 - 2 from x0 = 1 over Q: the criterion fires, converged = true *)
+  nleb (T := Q) (1 # 1000)%Q nzero = false /\
+  exists r fc it, newton (fun x : Q => (x * x - 2)%Q) (fun x : Q => (2 * x)%Q) (1 # 1000)%Q 1%Q 50 true = Res r fc it true.
+Proof. split; [reflexivity|]. do 3 eexists. vm_compute. reflexivity. Qed.
+
+(* bisect over exact rationals, ANY objective f.  near_sign_change f r tol :=
+   exists p q, (f p <= 0 <= f q or f q <= 0 <= f p) and |p - r| <= tol and |q - r| <= tol. *)
+Theorem C17_bisect_bracket : forall (f : Q -> Q) (a b xtol rtol : Q) (maxiter : Z) (disp : bool),
+  (0 < xtol)%Q -> (0 <= rtol)%Q -> (1 <= maxiter)%Z ->
+  let xa := Qmulr a 1 in
+  let xb := Qmulr b 1 in
+  let o := bisect f a b xtol rtol maxiter disp in
+  ((0 < f xa * f xb)%Q <-> o = ErrSign) /\
+  (forall r fc it, o = Res r fc it true ->
+     (exists p q, ((f p <= 0 /\ 0 <= f q) \/ (f q <= 0 /\ 0 <= f p))%Q /\
+                  (Qabs (p - r) <= xtol + rtol * Qabs r)%Q /\ (Qabs (q - r) <= xtol + rtol * Qabs r)%Q) /\
+     (Qabs (r - xa) <= Qabs (xb - xa))%Q /\ (Qabs (r - xb) <= Qabs (xb - xa))%Q /\
+     (fc = 2 + it)%Z /\ (0 <= it <= maxiter)%Z) /\
+  (~ (0 < f xa * f xb)%Q -> (f xb == 0)%Q -> o = Res xb 2 0 true) /\
+  (~ (0 < f xa * f xb)%Q -> (f xa == 0)%Q -> ~ (f xb == 0)%Q -> o = Res xa 2 0 true) /\
+  (forall r fc it, o = Res r fc it false -> disp = false /\ it = (maxiter - 1)%Z /\ fc = (2 + maxiter)%Z) /\
+  (o = ErrNoConv -> disp = true) /\ o <> ErrArg /\ o <> ErrZeroDiv.
+Proof. exact bisect_bracket. Qed.
+Print Assumptions C17_bisect_bracket.
+
+Example ex_bisect_bracket :   (* f(x) = x^2 - 2 on [0, 2]: hypotheses hold, the call converges *)
+  let f := fun x : Q => (x * x - 2)%Q in
+  ~ (0 < f (Qmulr 0 1) * f (Qmulr 2 1))%Q /\
+  exists r fc it, bisect f 0%Q 2%Q (1 # 1000)%Q (1 # 1000000)%Q 100 true = Res r fc it true.
+Proof. cbv zeta. split; [vm_compute; discriminate|]. do 3 eexists. vm_compute. reflexivity. Qed.
+
+(* brentq over exact rationals, ANY objective f: same contract (the bracket [xblk, xcur] always carries a sign
+   change; convergence means its width is below xtol + rtol|xcur| or f(xcur) = 0) *)
+Theorem C17_brentq_bracket : forall (f : Q -> Q) (a b xtol rtol : Q) (maxiter : Z) (disp : bool),
+  (0 < xtol)%Q -> (0 <= rtol)%Q -> (1 <= maxiter)%Z ->
+  let xa := Qmulr a 1 in
+  let xb := Qmulr b 1 in
+  let o := brentq f a b xtol rtol maxiter disp in
+  ((0 < f xa * f xb)%Q <-> o = ErrSign) /\
+  (forall r fc it, o = Res r fc it true ->
+     (exists p q, ((f p <= 0 /\ 0 <= f q) \/ (f q <= 0 /\ 0 <= f p))%Q /\
+                  (Qabs (p - r) <= xtol + rtol * Qabs r)%Q /\ (Qabs (q - r) <= xtol + rtol * Qabs r)%Q) /\
+     (fc = 1 + it \/ (fc = 2 /\ it = 0))%Z /\ (0 <= it <= maxiter)%Z) /\
+  (~ (0 < f xa * f xb)%Q -> (f xb == 0)%Q -> o = Res xb 2 0 true) /\
+  (~ (0 < f xa * f xb)%Q -> (f xa == 0)%Q -> ~ (f xb == 0)%Q -> o = Res xa 2 0 true) /\
+  (forall r fc it, o = Res r fc it false -> disp = false) /\
+  (o = ErrNoConv -> disp = true) /\ o <> ErrArg.
+Proof. exact brentq_bracket. Qed.
+Print Assumptions C17_brentq_bracket.
+
+Example ex_brentq_bracket :
+  let f := fun x : Q => (x * x - 2)%Q in
+  exists r fc it, brentq f 0%Q 2%Q (1 # 1000)%Q (1 # 1000000)%Q 100 true = Res r fc it true /\ (2 <= it)%Z.
+Proof. cbv zeta. do 3 eexists. vm_compute. split; [reflexivity|discriminate]. Qed.
+
+(* brent_max over exact rationals, ANY objective f, any sqrt_eps >= 0 and golden-section constant in (0,1]:
+   the returned point lies in [a,b], fval is f there, status_flag = 1 exactly when the evaluation budget stopped
+   the loop (then num >= maxiter; num = maxiter when maxiter >= 2), and the model never runs out of fuel. *)
+Theorem C17_brent_max_in_interval : forall (f : Q -> Q) (sqrt_eps g : Q),
+  (0 <= sqrt_eps)%Q -> (0 < g)%Q -> (g <= 1)%Q ->
+  forall (a b xtol : Q) (maxiter : Z), (0 < xtol)%Q ->
+  ((a < b)%Q ->
+   exists x fv st n, brent_max f sqrt_eps g a b xtol maxiter = BMRes x fv st n /\
+     (a <= x <= b)%Q /\ (fv == f x)%Q /\
+     (st = 0 \/ st = 1)%Z /\ (st = 1%Z -> (maxiter <= n)%Z) /\ (st = 0%Z -> (n = 1 \/ n < maxiter)%Z) /\
+     (1 <= n)%Z /\ (2 <= maxiter -> n <= maxiter)%Z) /\
+  (~ (a < b)%Q -> brent_max f sqrt_eps g a b xtol maxiter = BMErr).
+Proof. exact brent_max_in_interval. Qed.
+Print Assumptions C17_brent_max_in_interval.
+
+Example ex_brent_max :   (* f(x) = -(x-1)^2 on [0,3] with rational stand-ins for sqrt(2.2e-16) and (3-sqrt 5)/2 *)
+  exists x fv n, brent_max (fun x : Q => (- ((x - 1) * (x - 1)))%Q) (1 # 67000000)%Q (381966 # 1000000)%Q
+                   0%Q 3%Q (1 # 100000)%Q 500 = BMRes x fv 0 n /\ (3 <= n)%Z.
+Proof. do 3 eexists. vm_compute. split; [reflexivity|discriminate]. Qed.
 
 Theorem C17_bisect_product_underflow_refuted :
   PrimFloat.ltb (tiny_f 0) 0 = true /\ PrimFloat.ltb 0 (tiny_f 3) = true /\ PrimFloat.eqb (tiny_f 1) 0 = true /\
